@@ -24,6 +24,30 @@ class UserError(Exception):
     """Raised by generated user code (``raise`` statement)."""
 
 
+class UserTypeError(UserError, TypeError):
+    """User code may raise any exception class: the library must hand back the same object."""
+
+
+class UserValueError(UserError, ValueError):
+    pass
+
+
+class UserOSError(UserError, OSError):
+    pass
+
+
+class UserFileNotFoundError(UserError, FileNotFoundError):
+    pass
+
+
+class UserRuntimeError(UserError, RuntimeError):
+    pass
+
+
+USER_EXC = {None: UserError, 'user': UserError, 'type': UserTypeError, 'value': UserValueError, 'os': UserOSError,
+            'fnf': UserFileNotFoundError, 'runtime': UserRuntimeError}
+
+
 class Crash(Exception):
     """Raised by generated user code at an enumerated crash point; never caught by generated code."""
 
